@@ -1609,3 +1609,14 @@ def pd_is_integer_dtype(I, args, kwargs):
     if isinstance(v, SArr):
         return v.dtype == "int"
     raise Undecided("is_integer_dtype of a non-array value")
+
+
+@method("arr", "isin")
+def arr_isin(I, recv, args, kwargs):
+    """Index.isin(values): element-wise membership"""
+    other = to_arr(I, args[0].values if isinstance(args[0], SSeries) else args[0])
+    if recv.ndim != 1 or other.ndim != 1:
+        raise Undecided("isin on n-d arrays")
+    S = _spec()
+    USED.add("Index.isin(values): element-wise membership")
+    return SArr(recv.shape, lambda i: S.Exists(lambda j: Eq(other.fn(j), recv.fn(i)), 0, other.len, "isj"), "bool", "ndarray")
